@@ -23,6 +23,7 @@ NOT_DECIDED = "replay of the syscall trace in a power-loss model; filesystem sem
 
 def check(ctx: Ctx) -> None:
     r1(ctx)
+    r1b(ctx)
     r2(ctx)
     from .c03 import r1 as c03_r1, r2 as c03_r2
     c03_r2(ctx, "C16.R3")
@@ -82,6 +83,43 @@ def r1(ctx: Ctx) -> None:
             wr = ctx.calls(f, prim="os.write")
             ok = bool(wr) and all(any(w.id in dom[fs.id] for w in wr) for fs in _fsyncs(ctx, f) if any(fs.id in dom[r.id] for r in reps))
             ctx.ob("C16.R1", f, "content written before the fsync", wr[0] if wr else None, ok, "os.write dominates os.fsync")
+
+
+def r1b(ctx: Ctx) -> None:
+    ctx.rule("C16.R1b", "the data-file writer owns its own handle: the local ParquetWriter is opened on the temp file's PATH, so "
+             "writer.close() flushes and closes every buffered byte before close() fsyncs the file through a fresh descriptor", 1)
+    f = ctx.fn("data_operations.DataFileWriter.open")
+    sl = ctx.slicer(f)
+    ws = ctx.calls(f, prim="pyarrow.parquet.ParquetWriter")
+    if not ws:
+        raise AnalysisError("ParquetWriter construction vanished from DataFileWriter.open")
+    n_local = 0
+    for w in ws:
+        where = w.ast.args[0] if isinstance(w.ast, ast.Call) and w.ast.args else kwarg(w.ast, "where")
+        org = sl.origins(where, w.id)
+        calls = set(org["calls"])
+        # `self._temp_file.name`: the slice of a dotted name also follows its prefixes (the object the attribute is read from)
+        g = ctx.cfg(f)
+        for nm in list(org["names"]):
+            parts = nm.split(".")
+            for i in range(len(parts) - 1, 0, -1):
+                for d in ctx.rd(f).reaching(w.id, ".".join(parts[:i])):
+                    dn = g.nodes[d]
+                    if isinstance(dn.ast, ast.Assign):
+                        calls |= set(sl.origins(dn.ast.value, d)["calls"])
+        temp = any(isinstance(c, ast.Call) and (dotted(c.func) or "").split(".")[-1] in ("NamedTemporaryFile", "mkstemp", "TemporaryFile")
+                   for c in calls)
+        if not temp:
+            continue
+        n_local += 1
+        by_path = any(nm.endswith(".name") for nm in org["names"]) or \
+            any((dotted(c.func) or "").endswith("mkstemp") for c in calls if isinstance(c, ast.Call))
+        ctx.ob("C16.R1b", f, "ParquetWriter(<temp>.name, ...): opened by path, not on the already-open temp handle", w, by_path,
+               f"target `{norm_text(where)}` <- {sorted(n for n in org['names'] if 'temp' in n.lower() or n.endswith('.name'))[:4]}: "
+               "pyarrow never flushes a Python file object it was handed; close() then fsyncs (through another descriptor) a "
+               "file whose bytes are still in the first handle's buffer - after a power loss the committed data file is empty")
+    if n_local < 1:
+        raise AnalysisError("no local (temp-file) ParquetWriter found in DataFileWriter.open")
 
 
 def r2(ctx: Ctx) -> None:
